@@ -531,8 +531,8 @@ example := (anglePair_jacobian 1 0 2 (by norm_num)).1 (by simp)
 
 /-
 NOT SHOWN (the property is therefore PARTIAL in Lean; these clauses are checked by the numeric oracle only):
-* "prime prior = prior / J up to a constant" for the polar classes (chi-distributed auxiliary radius; uniform / sine /
-  isotropic angles) and for the GW distance converters — `prime_prior_value` covers the affine family only;
+* "prime prior = prior / J up to a constant" for the GW distance converters (the polar classes are covered in section
+  `polarPrior` below: uniform / sine angle with a χ(2) radius, isotropic angles with a χ(3) radius);
 * the GW distance converters (power law: oracle only; co-moving volume: lookup table, not covered at all),
   `DeltaPhaseReparameterisation` (oracle only);
 * `detect_edge`'s histogram decision (the edge is an input of the model);
@@ -578,5 +578,67 @@ example : Gen.RescaleTx.determine_rescaled_bounds (1 : ℚ) 3 1 3 Edge.upper tru
   norm_num [Gen.RescaleTx.determine_rescaled_bounds]
 
 end source
+
+/-! ## Prime priors of the polar reparameterisations (source-generated definitions, over ℝ)
+
+`Angle` / `ToCartesian` map an angle `θ` (uniform on a range of length `k`, or sine-distributed on `[0, π]`) and an auxiliary
+radius `r ~ χ(2)` to `(x, y) = (r cos θ, r sin θ)` with Jacobian `r`; `AnglePair` maps two isotropic angles and `r ~ χ(3)` to
+Cartesian coordinates with Jacobian `r² cos β` (ra-dec).  The prime-space priors the code offers are
+`log_2d_cartesian_prior`, `log_2d_cartesian_prior_sine` and `log_3d_cartesian_prior` (`nessai/priors.py`); the first and the
+last are GENERATED from the source (`Gen/RescaleTx.lean`).  The theorems say: prime prior = original prior − log|Jacobian|,
+exactly (the allowed constant is zero), wherever the map is regular. -/
+section polarPrior
+open Real
+
+/-- `scipy.stats.chi(2).logpdf(r)` and `chi(3).logpdf(r)` for `r > 0` -/
+noncomputable def chi2LogPdf (r : ℝ) : ℝ := log r - r ^ 2 / 2
+noncomputable def chi3LogPdf (r : ℝ) : ℝ := (1 / 2) * log (2 / π) + 2 * log r - r ^ 2 / 2
+
+/-- uniform angle on a range of length `k`, radius χ(2): the generated `log_2d_cartesian_prior` at `(r cos θ, r sin θ)` is
+`−log k + χ₂.logpdf(r) − log r` -/
+theorem cartesian2d_prime_prior (θ r k : ℝ) (hr : 0 < r) :
+    Gen.RescaleTx.log_2d_cartesian_prior Real.log Real.exp π (r * cos θ) (r * sin θ) k =
+      (-log k) + chi2LogPdf r - log r := by
+  have h : (r * cos θ) * (r * cos θ) + (r * sin θ) * (r * sin θ) = r ^ 2 := by
+    have := cos_sq_add_sin_sq θ
+    nlinarith [this]
+  simp only [Gen.RescaleTx.log_2d_cartesian_prior, chi2LogPdf, h]
+  push_cast
+  ring
+
+/-- the sine prior (`nessai/priors.py: log_2d_cartesian_prior_sine`, for `y ≥ 0`; written out: this function clamps
+negative `y` in place and is not in the translator's fragment): `log(y/2) − ½ log(x²+y²) − (x²+y²)/2` at
+`(r cos θ, r sin θ)` is `log(sin θ / 2) + χ₂.logpdf(r) − log r` -/
+theorem cartesian2d_sine_prime_prior (θ r : ℝ) (hr : 0 < r) (hs : 0 < sin θ) :
+    log ((r * sin θ) / 2) - (1 / 2) * log ((r * cos θ) ^ 2 + (r * sin θ) ^ 2) - ((r * cos θ) ^ 2 + (r * sin θ) ^ 2) / 2 =
+      log (sin θ / 2) + chi2LogPdf r - log r := by
+  have h : (r * cos θ) ^ 2 + (r * sin θ) ^ 2 = r ^ 2 := by
+    have := cos_sq_add_sin_sq θ
+    nlinarith [this]
+  have h1 : log ((r * sin θ) / 2) = log r + log (sin θ / 2) := by
+    rw [mul_div_assoc, log_mul hr.ne' (by positivity)]
+  have h2 : log (r ^ 2) = 2 * log r := by
+    rw [log_pow]; norm_num
+  rw [h, h1, h2, chi2LogPdf]
+  ring
+
+/-- isotropic angles (ra-dec: density `cos β / (4π)`), radius χ(3), Jacobian `r² cos β`: the generated
+`log_3d_cartesian_prior` depends on the radius only and equals `log(cos β / (4π)) + χ₃.logpdf(r) − log(r² cos β)` -/
+theorem cartesian3d_prime_prior (x y z r β : ℝ) (hr : 0 < r) (hc : 0 < cos β) (hxyz : x * x + y * y + z * z = r ^ 2) :
+    Gen.RescaleTx.log_3d_cartesian_prior Real.log Real.exp π x y z =
+      log (cos β / (4 * π)) + chi3LogPdf r - log (r ^ 2 * cos β) := by
+  have hpi := pi_pos
+  simp only [Gen.RescaleTx.log_3d_cartesian_prior, chi3LogPdf, hxyz]
+  rw [log_div hc.ne' (by positivity), log_mul (by positivity) hc.ne', log_pow, log_mul (by norm_num) hpi.ne',
+    log_div (by norm_num) hpi.ne']
+  push_cast
+  have h4 : log 4 = 2 * log 2 := by
+    rw [show (4 : ℝ) = 2 ^ 2 by norm_num, log_pow]; norm_num
+  rw [log_mul (by norm_num) hpi.ne', h4]
+  ring
+
+example := cartesian2d_prime_prior 1 2 π (by norm_num)
+
+end polarPrior
 
 end NessaiVerif.C07
